@@ -988,3 +988,93 @@ package queue
 //@   calls ResumeMessages requires [C14:a_real_run_changes_exactly_the_selection_and_a_preview_changes_nothing] !req.PreviewOnly && arg1.IDs == lastSelectedIDs && selections == old(selections) + 1
 //@   ensures [C14:preview_reports_the_size_of_the_selection_a_real_run_would_make] result1 == nil && req.PreviewOnly ==> result0.PreviewOnly && result0.Resumed == 0 && result0.Matched == len(lastSelectedIDs) && selections == old(selections) + 1 && durable == old(durable)
 //@   ensures [C14:a_real_run_reports_the_selection_size_as_matched] result1 == nil && !req.PreviewOnly ==> result0.Matched == len(lastSelectedIDs) && selections == old(selections) + 1
+
+// ---- C04/C01 on the SQLite boundary: batched lease settlement (AckBatch/NackBatch/MarkDeadBatch share this body) ----
+// The lease lookup, the release of expired leases and the settlement statement all run inside one IMMEDIATE
+// transaction: a lease voided or superseded by another writer cannot be honoured.
+//@ spec
+//@ ghost var leaseLookups int
+//@ extern local:fn(ctx, conn, now, itemIDs) (err)
+//@   requires txOpen && len(itemIDs) > 0
+//@   modifies txPending
+//@   ensures txPending >= old(txPending) && (err == nil ==> txPending >= old(txPending) + 1)
+//@ func (*SQLiteStore).lookupLeasesTx
+//@   trusted
+//@   requires txOpen
+//@   modifies leaseLookups
+//@   sets leaseLookups := old(leaseLookups) + 1
+//@   ensures result1 == nil ==> result0 != nil
+//@ func (*SQLiteStore).requeueLeaseIDsTx
+//@   trusted
+//@   requires txOpen
+//@   modifies txPending
+//@   ensures txPending >= old(txPending)
+//@ func (*SQLiteStore).withLeaseBatch$1
+//@   requires s != nil && conn != nil
+//@   modifies durable, txOpen, txPending
+//@   ensures [C01:rollback_unless_committed] (committed ==> durable == old(durable) && txOpen == old(txOpen) && txPending == old(txPending)) && (!committed ==> durable == old(durable) && txPending == 0 && !txOpen)
+//@ func (*SQLiteStore).withLeaseBatch
+//@   requires s != nil && s.db != nil && !txOpen && txPending == 0
+//@   modifies durable, txOpen, txPending, leaseLookups
+//@   loop 1 invariant [blank_ids_are_conflicts] !txOpen && txPending == 0 && durable == old(durable) && rangeindex < len(leaseIDs) && len(normalized) + len(res.Conflicts) == rangeindex + 1 && leaseLookups == old(leaseLookups) && res.Succeeded == 0
+//@   loop 2 invariant [every_id_is_settled_or_a_conflict] txOpen && !committed && durable == old(durable) && rangeindex < len(normalized) && len(validIDs) + len(res.Conflicts) == (len(leaseIDs) - len(normalized)) + rangeindex + 1 && leaseLookups == old(leaseLookups) + 1 && res.Succeeded == 0 && txPending >= 0
+//@   calls lookupLeasesTx requires [C04:leases_are_resolved_inside_the_write_transaction_that_settles_them] txOpen && leaseLookups == old(leaseLookups)
+//@   calls requeueLeaseIDsTx requires [C04:expired_leases_are_released_in_the_same_transaction] txOpen && leaseLookups == old(leaseLookups) + 1
+//@   calls local:fn requires [C04:settlement_runs_in_the_transaction_that_resolved_the_leases] txOpen && leaseLookups == old(leaseLookups) + 1 && len(arg3) > 0
+//@   ensures [C04:every_lease_id_is_settled_or_reported_as_a_conflict] result1 == nil ==> result0.Succeeded + len(result0.Conflicts) == len(leaseIDs)
+//@   ensures [C01:nil_with_work_implies_committed] result1 == nil && result0.Succeeded > 0 ==> durable >= old(durable) + 1
+//@   ensures [C01:error_implies_nothing_committed] result1 != nil ==> durable == old(durable)
+//@   ensures [C01:no_transaction_left_open] !txOpen && txPending == 0
+
+//@ func (*SQLiteStore).execByItemIDsTx
+//@   strings theory
+//@   requires s != nil && conn != nil && txOpen
+//@   modifies durable, txOpen, txPending
+//@   loop 1 invariant [ids_follow_the_fixed_parameters] rangeindex < len(itemIDs) && len(execArgs) == len(args) + rangeindex + 1 && (forall j int :: 0 <= j && j < len(args) ==> execArgs[j] == args[j]) && (forall j int :: 0 <= j && j <= rangeindex ==> execArgs[len(args) + j] == itemIDs[j])
+//@   calls database/sql.(*Conn).ExecContext requires [C04:the_statement_names_exactly_the_given_items] arg2 == queryPrefix + ext("strings.TrimRight", ext("strings.Repeat", "?,", len(itemIDs)), ",") + ");" && len(arg3) == len(args) + len(itemIDs) && (forall j int :: 0 <= j && j < len(args) ==> arg3[j] == args[j]) && (forall j int :: 0 <= j && j < len(itemIDs) ==> arg3[len(args) + j] == itemIDs[j])
+//@   ensures [one_statement_inside_the_transaction] txOpen && durable == old(durable) && txPending >= old(txPending) && (result == nil && len(itemIDs) > 0 ==> txPending == old(txPending) + 1)
+
+//@ func (*SQLiteStore).AckBatch$1
+//@   requires s != nil && conn != nil && txOpen
+//@   modifies durable, txOpen, txPending
+//@   calls execByItemIDsTx requires [C04:ack_batch_settles_exactly_the_resolved_items] arg5 == itemIDs && ((s.deliveredRetentionMaxAge > 0 && arg3 == "\nUPDATE queue_items\nSET state = ?, lease_id = NULL, lease_until = NULL, next_run_at = ?, dead_reason = NULL\nWHERE id IN (" && len(arg4) == 2 && arg4[0] == "delivered" && arg4[1] == unixNanoOf(now)) || (s.deliveredRetentionMaxAge <= 0 && arg3 == "\nDELETE FROM queue_items\nWHERE id IN (" && len(arg4) == 0))
+//@   ensures [one_statement_inside_the_transaction] txOpen && durable == old(durable) && txPending >= old(txPending) && (result == nil && len(itemIDs) > 0 ==> txPending == old(txPending) + 1)
+
+//@ func (*SQLiteStore).NackBatch$1
+//@   requires s != nil && conn != nil && txOpen
+//@   modifies durable, txOpen, txPending
+//@   calls execByItemIDsTx requires [C05:nack_batch_requeues_exactly_the_resolved_items_for_now_plus_delay] arg5 == itemIDs && arg3 == "\nUPDATE queue_items\nSET state = ?, lease_id = NULL, lease_until = NULL, next_run_at = ?, dead_reason = NULL\nWHERE id IN (" && len(arg4) == 2 && arg4[0] == "queued" && arg4[1] == unixNanoOf(now + delay)
+//@   ensures [one_statement_inside_the_transaction] txOpen && durable == old(durable) && txPending >= old(txPending) && (result == nil && len(itemIDs) > 0 ==> txPending == old(txPending) + 1)
+
+//@ func (*SQLiteStore).MarkDeadBatch$1
+//@   requires s != nil && conn != nil && txOpen
+//@   modifies durable, txOpen, txPending
+//@   calls execByItemIDsTx requires [C04:dead_letter_batch_moves_exactly_the_resolved_items_to_dead] arg5 == itemIDs && arg3 == "\nUPDATE queue_items\nSET state = ?, lease_id = NULL, lease_until = NULL, next_run_at = ?, dead_reason = ?\nWHERE id IN (" && len(arg4) == 3 && arg4[0] == "dead" && arg4[1] == unixNanoOf(now)
+//@   ensures [one_statement_inside_the_transaction] txOpen && durable == old(durable) && txPending >= old(txPending) && (result == nil && len(itemIDs) > 0 ==> txPending == old(txPending) + 1)
+
+//@ func (*SQLiteStore).AckBatch
+//@   requires s != nil && s.db != nil && !txOpen && txPending == 0
+//@   modifies durable, txOpen, txPending, leaseLookups, signals
+//@   calls withLeaseBatch requires [C04:the_batch_is_the_callers_lease_ids] arg1 == leaseIDs
+//@   ensures [C04:every_lease_id_is_settled_or_reported_as_a_conflict] result1 == nil ==> result0.Succeeded + len(result0.Conflicts) == len(leaseIDs)
+//@   ensures [C01:nil_with_work_implies_committed] result1 == nil && result0.Succeeded > 0 ==> durable >= old(durable) + 1
+//@   ensures [C01:error_implies_nothing_committed] result1 != nil ==> durable == old(durable)
+//@   ensures [C01:no_transaction_left_open] !txOpen && txPending == 0
+
+//@ func (*SQLiteStore).NackBatch
+//@   requires s != nil && s.db != nil && !txOpen && txPending == 0
+//@   modifies durable, txOpen, txPending, leaseLookups, signals
+//@   calls withLeaseBatch requires [C04:the_batch_is_the_callers_lease_ids] arg1 == leaseIDs && delay >= 0
+//@   ensures [C04:every_lease_id_is_settled_or_reported_as_a_conflict] result1 == nil ==> result0.Succeeded + len(result0.Conflicts) == len(leaseIDs)
+//@   ensures [C01:nil_with_work_implies_committed] result1 == nil && result0.Succeeded > 0 ==> durable >= old(durable) + 1
+//@   ensures [C01:error_implies_nothing_committed] result1 != nil ==> durable == old(durable)
+//@   ensures [C01:no_transaction_left_open] !txOpen && txPending == 0
+
+//@ func (*SQLiteStore).MarkDeadBatch
+//@   requires s != nil && s.db != nil && !txOpen && txPending == 0
+//@   modifies durable, txOpen, txPending, leaseLookups, signals
+//@   calls withLeaseBatch requires [C04:the_batch_is_the_callers_lease_ids] arg1 == leaseIDs
+//@   ensures [C04:every_lease_id_is_settled_or_reported_as_a_conflict] result1 == nil ==> result0.Succeeded + len(result0.Conflicts) == len(leaseIDs)
+//@   ensures [C01:nil_with_work_implies_committed] result1 == nil && result0.Succeeded > 0 ==> durable >= old(durable) + 1
+//@   ensures [C01:error_implies_nothing_committed] result1 != nil ==> durable == old(durable)
+//@   ensures [C01:no_transaction_left_open] !txOpen && txPending == 0
